@@ -13,8 +13,9 @@ The full-strength statement
 
     theorem roundtrip_expr (e : Expr) : parseE (printE e) = some e
 
-is **false** for the unchanged code; the witnesses below are replayed on the real formatter by the
-check (known findings C08-F1 … C08-F4).
+was **false** for the original code in four ways (known findings C08-F1 … C08-F4, all repaired by
+`fix:` commits, see the history note below) and is still false in one (C08-F5, same-operator
+regrouping, pinned by a golden test).
 -/
 namespace SamVerif.Fmt
 
@@ -22,132 +23,160 @@ private def a : Expr := .atom 0
 private def b : Expr := .atom 1
 private def c : Expr := .atom 2
 
-/-! ## Expressions: counterexamples to the full-strength round trip -/
+/-! ## Expressions: what is still false, and what the fixes made true
 
-/-- P3 / C08-F1: `a * (b / c)` is printed `a * b / c`, which is `(a * b) / c`. -/
-theorem shortcut_regroups_mul_div :
-    printE (.binary .mul a (.binary .div b c)) = [.atom 0, .op .mul, .atom 1, .op .div, .atom 2] ∧
-    parseE (printE (.binary .mul a (.binary .div b c))) = some (.binary .div (.binary .mul a b) c) := by
+History.  On the original tree the full-strength statement had four families of counterexamples, all
+replayed on the real formatter and repaired by `fix:` commits in /repo (model updated accordingly):
+* C08-F1 `a * (b / c)` ↦ `a * b / c`, `t == (x < y)` ↦ `t == x < y`   (9730edb, 8fbb1c9)
+* C08-F3 `-(-a)` ↦ `--a`, `!(!a)` ↦ `!!a` (syntax errors)              (7a6d532)
+* C08-F4 `(a + b) :: c` ↦ `a + b :: c` = `a + (b :: c)` …              (8067f9b, parser)
+* C08-F2 `"q\"uote"` ↦ `"q"uote"`                                      (b0a5193)
+What remains (C08-F5, open: the golden test `assert_reprint_expr("1 + (1 + 1)", "1 + 1 + 1")`,
+source_printer.rs tests, pins it): `a ⊕ (b ⊕ c)` with ⊕ ∈ {+, *, &&, ||} is printed `a ⊕ b ⊕ c`
+and read back as `(a ⊕ b) ⊕ c` — another tree, the same value. -/
+
+/-- C08-F5: `a + (b + c)` is printed `a + b + c`, which is `(a + b) + c`. -/
+theorem shortcut_regroups_same_operator :
+    printE (.binary .plus a (.binary .plus b c)) = [.atom 0, .op .plus, .atom 1, .op .plus, .atom 2] ∧
+    parseE (printE (.binary .plus a (.binary .plus b c))) = some (.binary .plus (.binary .plus a b) c) := by
   decide
 
-/-- **Negation of the full-strength statement.** -/
+/-- **Negation of the full-strength tree-equality statement** (still, after the fixes). -/
 theorem roundtrip_expr_counterexample : ¬ ∀ e : Expr, parseE (printE e) = some e := by
   intro h
-  have := h (.binary .mul a (.binary .div b c))
-  rw [shortcut_regroups_mul_div.2] at this
+  have := h (.binary .plus a (.binary .plus b c))
+  rw [shortcut_regroups_same_operator.2] at this
   exact absurd this (by decide)
 
-/-- C08-F1 on a well-typed program: `t == (x < y)` is printed `t == x < y` = `(t == x) < y`,
-which no longer type-checks. -/
-theorem shortcut_regroups_comparison :
-    parseE (printE (.binary .eq a (.binary .lt b c))) = some (.binary .lt (.binary .eq a b) c) := by
+/-- the former witnesses of C08-F1, F3, F4 now round-trip (regression, by evaluation). -/
+theorem former_witnesses_roundtrip :
+    parseE (printE (.binary .mul a (.binary .div b c))) = some (.binary .mul a (.binary .div b c)) ∧
+    parseE (printE (.binary .eq a (.binary .lt b c))) = some (.binary .eq a (.binary .lt b c)) ∧
+    parseE (printE (.binary .mul a (.binary .mul (.binary .div a b) c))) =
+      some (.binary .mul a (.binary .mul (.binary .div a b) c)) ∧
+    parseE (printE (.unary .neg (.unary .neg a))) = some (.unary .neg (.unary .neg a)) ∧
+    parseE (printE (.unary .not (.unary .not a))) = some (.unary .not (.unary .not a)) ∧
+    parseE (printE (.binary .concat (.binary .plus a b) c)) = some (.binary .concat (.binary .plus a b) c) ∧
+    parseE (printE (.binary .concat (.binary .mul a b) c)) = some (.binary .concat (.binary .mul a b) c) ∧
+    parseE (printE (.binary .concat a (.binary .mul b c))) = some (.binary .concat a (.binary .mul b c)) := by
   decide
 
-/-- C08-F3: `-(-a)` is printed `--a` and `!(!a)` is printed `!!a`; neither parses
-(the operand of a unary operator is parsed by `parse_function_call_or_field_access`). -/
-theorem nested_unary_unparsable :
-    printE (.unary .neg (.unary .neg a)) = [.op .minus, .op .minus, .atom 0] ∧
-    parseE (printE (.unary .neg (.unary .neg a))) = none ∧
-    parseE (printE (.unary .not (.unary .not a))) = none := by
-  decide
+/-! ## Expressions: the round-trip theorems -/
 
-/-- C08-F4: the printer's table puts `::` on the level of `+ -`, the parser binds it tighter than
-`* / %`: `(a + b) :: c` is printed `a + b :: c` = `a + (b :: c)`; `(a * b) :: c` and
-`a :: (b * c)` lose their parentheses as well. -/
-theorem concat_level_mismatch :
-    parseE (printE (.binary .concat (.binary .plus a b) c)) = some (.binary .plus a (.binary .concat b c)) ∧
-    parseE (printE (.binary .concat (.binary .mul a b) c)) = some (.binary .mul a (.binary .concat b c)) ∧
-    parseE (printE (.binary .concat a (.binary .mul b c))) = some (.binary .mul (.binary .concat a b) c) := by
-  decide
+/-- **Round trip under the side condition `RT`** (unbounded expressions, fuel-free): if the printer
+leaves operands without parentheses only where the parser's level structure reads them back as
+operands (`RT`, decidable, see `Model/Fmt.lean`), then the printed token sequence parses to exactly
+the original tree — same operators, same grouping, same postfix chains, same lambda bodies. -/
+theorem roundtrip_expr_partial (e : Expr) (h : RT e = true) : parseE (printE e) = some e := by
+  have hm := main_top (main e h) h (stopsAbove_nil 0)
+  rw [List.append_nil] at hm
+  have hb := B_le e
+  have := hm (fuelFor (printE e)) (by simp only [fuelFor]; omega)
+  simp [parseE, parseFuel, this]
 
-/-! ## Expressions: the partial round-trip theorem -/
-
-/-- **Round trip under the side condition `RT`** (unbounded expressions): if the printer leaves
-operands without parentheses only where the parser's level structure reads them back as
-operands (`RT`, decidable, see `Model/Fmt.lean`), then the printed token sequence parses, with
-every sufficiently large recursion budget, to exactly the original tree — same operators, same
-grouping. -/
-theorem roundtrip_expr_partial (e : Expr) (h : RT e = true) :
-    ∃ n, ∀ f, n ≤ f → parseFuel f (printE e) = some e := by
-  have hm := main_at (main e h) (k := 0) (Nat.zero_le _) (by omega) (stopsAbove_nil 0)
-  obtain ⟨n, hn⟩ := hm
-  refine ⟨n, fun f hf => ?_⟩
-  have := hn f hf
-  rw [List.append_nil] at this
-  simp [parseFuel, this]
+/-- The same in context: a printed expression followed by any input at which the loops of all
+levels stop (`)`, end of input, or another non-operator, non-postfix token) is read back as that
+expression, leaving the rest. -/
+theorem roundtrip_expr_in_context (e : Expr) (h : RT e = true) (rest : List Tok)
+    (hs : ∀ t r, rest = t :: r → bl t = none) (f : Nat) (hf : fuelFor (printE e) ≤ f) :
+    parseTop f (printE e ++ rest) = some (e, rest) := by
+  have hm := main_top (main e h) h (rest := rest)
+    (fun t r b ht hb => by rw [hs t r ht] at hb; cases hb)
+  have hb := B_le e
+  exact hm f (by simp only [fuelFor] at hf; omega)
 
 /-- **The recursion budget never changes an answer**: once the parser model returns a tree, every
 larger budget returns the same tree. -/
 theorem parseFuel_stable (f f' : Nat) (ts : List Tok) (e : Expr) (h : parseFuel f ts = some e)
     (hf : f ≤ f') : parseFuel f' ts = some e := by
-  have := parseLevel_mono (parseFuel_some h) hf
+  have := parseTop_mono (parseFuel_some h) hf
   simp [parseFuel, this]
 
-/-- **No wrong tree at any budget**: under `RT`, whatever budget the parser model is run with on the
-printed tokens, it either runs out of budget or returns exactly the original tree
-(and by `roundtrip_expr_partial` the latter for every sufficiently large budget). -/
-theorem roundtrip_expr_never_wrong (e : Expr) (h : RT e = true) (f : Nat) (e' : Expr)
-    (hp : parseFuel f (printE e) = some e') : e' = e := by
-  obtain ⟨n, hn⟩ := roundtrip_expr_partial e h
-  have h1 := parseFuel_stable f (f + n) _ _ hp (by omega)
-  have h2 := hn (f + n) (by omega)
-  rw [h1] at h2
-  cases h2
-  rfl
+/-- **Redundant parentheses are invisible to the parser** (used by C13): if a complete token
+sequence parses to `e`, so does the same sequence wrapped in one more pair of parentheses. -/
+theorem paren_insensitive (ts : List Tok) (e : Expr) (h : parseE ts = some e) :
+    parseE (.lp :: (ts ++ [.rp])) = some e := by
+  have h0 := parseFuel_some h
+  have h1 : PTop (fuelFor ts) (ts ++ [.rp]) e [.rp] :=
+    ptop_of_some (by simpa using (ext_all (fuelFor ts)).1 ts e [] h0)
+  have h6 := plevel6 (Nat.le_refl 6) (pbase_paren h1) (ploop_stop_of (e := e) (stopsAbove_nil 0) (Nat.zero_le 6))
+  have hsb : startsBase (.lp :: (ts ++ [.rp])) := by
+    intro r; constructor <;> intro he <;> cases he
+  have hl0 := lift (Nat.le_refl 6) h6 (fun _ => hsb) 6 0 (by omega) (stopsAbove_nil 0)
+  have hnk : notKw (.lp :: (ts ++ [.rp])) := by
+    intro k r; constructor <;> intro he <;> cases he
+  have := ptop_level hl0 hnk (fuelFor (.lp :: (ts ++ [.rp])))
+    (by simp only [fuelFor, List.length_cons, List.length_append, List.length_nil]; omega)
+  simp [parseE, parseFuel, this]
 
-/-- The same in context: a printed expression followed by any input at which the loops of all
-levels stop (`)`, end of input, or a non-operator token) is read back as that expression. -/
-theorem roundtrip_expr_in_context (e : Expr) (h : RT e = true) (rest : List Tok)
-    (hs : ∀ o t, rest ≠ .op o :: t) :
-    ∃ n, ∀ f, n ≤ f → parseLevel f 0 (printE e ++ rest) = some (e, rest) :=
-  main_at (main e h) (k := 0) (Nat.zero_le _) (by omega) (fun o t ht => absurd ht (hs o t))
+/-- does the printer take the right-operand shortcut at the node `binary o l r`? -/
+def usesShortcut (o : BinOp) (l r : Expr) : Bool :=
+  l.prec != 4 + o.pprec && r.prec == 4 + o.pprec && shortcutOk o r
 
-/-- An explicit, purely syntactic sufficient condition for `RT`: no `::`, no unary operator
-directly under a unary operator, and no right operand on the printer-precedence level of its
-parent unless the parent is `- / %` or the left operand is on that level too (in both cases the
-printer keeps the parentheses). -/
-def Clean : Expr → Bool
-  | .atom _ => true
-  | .unary _ e => Clean e && (match e with | .unary _ _ => false | _ => true)
-  | .binary o l r =>
-    Clean l && Clean r && o != .concat &&
-      !(l.prec != 4 + o.pprec && r.prec == 4 + o.pprec && !o.noShortcut)
+/-- no node of the expression takes the shortcut (i.e. no `x ⊕ (y ⊕ z)` with ⊕ ∈ {+,*,&&,||}, `x`
+not on ⊕'s level and `y` not on ⊕'s level). -/
+def NoShortcut : Expr → Bool
+  | .atom _ | .ifElse _ | .matchE _ => true
+  | .post e _ => NoShortcut e
+  | .unary _ e => NoShortcut e
+  | .lambda _ b => NoShortcut b
+  | .binary o l r => NoShortcut l && NoShortcut r && !usesShortcut o l r
 
-theorem plevel_eq_of_ne_concat (o : BinOp) (h : o ≠ .concat) : o.plevel = 4 - o.pprec := by
-  cases o <;> first | rfl | exact absurd rfl h
+/-- after fix 8067f9b the printer's table and the parser's level order are mirror images. -/
+theorem plevel_eq (o : BinOp) : o.plevel = 4 - o.pprec := by cases o <;> rfl
 
 theorem pprec_le4 (o : BinOp) : o.pprec ≤ 4 := by cases o <;> decide
 
-/-- the top operator of a `Clean` expression is not `::`. -/
-theorem clean_top {o : BinOp} {l r : Expr} (h : Clean (.binary o l r) = true) : o ≠ .concat := by
-  simp only [Clean, Bool.and_eq_true, bne_iff_ne] at h
-  exact h.1.2
-
-theorem rt_of_clean (e : Expr) (h : Clean e = true) : RT e = true := by
+/-- **On the fixed code the side condition `RT` is implied by "no shortcut taken"**: every other
+parenthesisation decision of the printer (precedence classes 0/1/2/4–8/10/11/12) agrees with the
+parser. -/
+theorem rt_of_noShortcut (e : Expr) (h : NoShortcut e = true) : RT e = true := by
   induction e with
   | atom a => rfl
-  | unary u e ih =>
-    simp only [Clean, Bool.and_eq_true] at h
+  | ifElse k => rfl
+  | matchE k => rfl
+  | lambda k b ih => simp only [NoShortcut] at h; simp only [RT]; exact ih h
+  | post e p ih =>
+    simp only [NoShortcut] at h
     simp only [RT, Bool.and_eq_true, Bool.or_eq_true, decide_eq_true_eq]
-    refine ⟨ih h.1, ?_⟩
+    refine ⟨ih h, ?_⟩
     cases e with
-    | atom a => right; simp [Expr.lvl]
-    | unary u' e' => simp at h
+    | atom a => right; simp [Expr.lvl, Expr.operandOk]
+    | post e' p' => right; simp [Expr.lvl, Expr.operandOk]
+    | unary u' e' => left; simp [needParen, Expr.prec]
     | binary o l r => left; simp [needParen, Expr.prec]; omega
+    | ifElse k => left; simp [needParen, Expr.prec]
+    | matchE k => left; simp [needParen, Expr.prec]
+    | lambda k b => left; simp [needParen, Expr.prec]
+  | unary u e ih =>
+    simp only [NoShortcut] at h
+    simp only [RT, Bool.and_eq_true, Bool.or_eq_true, decide_eq_true_eq]
+    refine ⟨ih h, ?_⟩
+    cases e with
+    | atom a => right; simp [Expr.lvl, Expr.operandOk]
+    | post e' p' => right; simp [Expr.lvl, Expr.operandOk]
+    | unary u' e' => left; simp [needParen, Expr.prec]
+    | binary o l r => left; simp [needParen, Expr.prec]; omega
+    | ifElse k => left; simp [needParen, Expr.prec]
+    | matchE k => left; simp [needParen, Expr.prec]
+    | lambda k b => left; simp [needParen, Expr.prec]
   | binary o l r ihl ihr =>
-    simp only [Clean, Bool.and_eq_true, bne_iff_ne] at h
-    obtain ⟨⟨⟨hl, hr⟩, ho⟩, hsc⟩ := h
-    have hpl := plevel_eq_of_ne_concat o ho
+    simp only [NoShortcut, Bool.and_eq_true] at h
+    obtain ⟨⟨hl, hr⟩, hsc⟩ := h
+    have hpl := plevel_eq o
     have hp4 := pprec_le4 o
-    have hp5 := plevel_le5 o
     simp only [RT, Bool.and_eq_true, Bool.or_eq_true, decide_eq_true_eq]
     refine ⟨⟨⟨ihl hl, ihr hr⟩, ?_⟩, ?_⟩
     · -- left operand
       cases l with
-      | atom a => right; simp only [Expr.lvl]; omega
-      | unary u e => right; simp only [Expr.lvl]; omega
+      | atom a => right; simp only [Expr.lvl, Expr.operandOk]; exact ⟨trivial, by omega⟩
+      | post e p => right; simp only [Expr.lvl, Expr.operandOk]; exact ⟨trivial, by omega⟩
+      | unary u e => right; simp only [Expr.lvl, Expr.operandOk]; exact ⟨trivial, by omega⟩
+      | ifElse k => left; simp [lParen, needParen, Expr.prec]; omega
+      | matchE k => left; simp [lParen, needParen, Expr.prec]; omega
+      | lambda k b => left; simp [lParen, needParen, Expr.prec]; omega
       | binary ol l1 l2 =>
-        have hol := plevel_eq_of_ne_concat ol (clean_top hl)
+        have hol := plevel_eq ol
         have := pprec_le4 ol
         by_cases hgt : o.pprec < ol.pprec
         · left
@@ -155,68 +184,84 @@ theorem rt_of_clean (e : Expr) (h : Clean e = true) : RT e = true := by
           have h2 : 4 + ol.pprec ≥ 4 + o.pprec := by omega
           have hlp : (Expr.binary ol l1 l2).prec = 4 + ol.pprec := rfl
           simp only [lParen, needParen, hlp, h1, h2, if_false, if_true, decide_true]
-        · right; simp only [Expr.lvl]; omega
+        · right; simp only [Expr.lvl, Expr.operandOk]; exact ⟨trivial, by omega⟩
     · -- right operand
       cases r with
-      | atom a => right; simp only [Expr.lvl]; omega
-      | unary u e => right; simp only [Expr.lvl]; omega
+      | atom a => right; simp only [Expr.lvl, Expr.operandOk]; exact ⟨trivial, by omega⟩
+      | post e p => right; simp only [Expr.lvl, Expr.operandOk]; exact ⟨trivial, by omega⟩
+      | unary u e => right; simp only [Expr.lvl, Expr.operandOk]; exact ⟨trivial, by omega⟩
+      | ifElse k =>
+        left
+        have hrp : (Expr.ifElse k).prec = 10 := rfl
+        by_cases hlq : l.prec = 4 + o.pprec
+        · simp [rParen, needParen, hrp, hlq]; omega
+        · have : ¬ (10 = 4 + o.pprec) := by omega
+          simp [rParen, needParen, hrp, hlq, this]; omega
+      | matchE k =>
+        left
+        have hrp : (Expr.matchE k).prec = 11 := rfl
+        by_cases hlq : l.prec = 4 + o.pprec
+        · simp [rParen, needParen, hrp, hlq]; omega
+        · have : ¬ (11 = 4 + o.pprec) := by omega
+          simp [rParen, needParen, hrp, hlq, this]; omega
+      | lambda k b =>
+        left
+        have hrp : (Expr.lambda k b).prec = 12 := rfl
+        by_cases hlq : l.prec = 4 + o.pprec
+        · simp [rParen, needParen, hrp, hlq]; omega
+        · have : ¬ (12 = 4 + o.pprec) := by omega
+          simp [rParen, needParen, hrp, hlq, this]; omega
       | binary or_ r1 r2 =>
-        have hor := plevel_eq_of_ne_concat or_ (clean_top hr)
+        have hor := plevel_eq or_
         have := pprec_le4 or_
         by_cases hgt : or_.pprec < o.pprec
-        · right; simp only [Expr.lvl]; omega
+        · right; simp only [Expr.lvl, Expr.operandOk]; exact ⟨trivial, by omega⟩
         · left
           have h2 : 4 + or_.pprec ≥ 4 + o.pprec := by omega
           have hrp : (Expr.binary or_ r1 r2).prec = 4 + or_.pprec := rfl
-          rw [hrp] at hsc
+          rw [usesShortcut, hrp] at hsc
           by_cases hlq : l.prec = 4 + o.pprec
           · simp only [rParen, needParen, hrp, hlq, h2, if_true, decide_true]
-          · have hrne : ¬ (4 + or_.pprec = 4 + o.pprec ∧ o.noShortcut = false) := by
+          · have hrne : ¬ (4 + or_.pprec = 4 + o.pprec ∧ shortcutOk o (Expr.binary or_ r1 r2) = true) := by
               intro hh
               simp [hlq, hh.1, hh.2] at hsc
             simp only [rParen, needParen, hrp, hlq, hrne, h2, if_false, if_true, decide_true]
 
-/-- **Round trip for `Clean` expressions** (corollary of `roundtrip_expr_partial`). -/
-theorem roundtrip_expr_clean (e : Expr) (h : Clean e = true) :
-    ∃ n, ∀ f, n ≤ f → parseFuel f (printE e) = some e :=
-  roundtrip_expr_partial e (rt_of_clean e h)
+/-- **Round trip for every expression in which the shortcut is not taken** (unbounded size,
+fuel-free): the printed tokens parse back to exactly the original tree. On the fixed code this is
+the full-strength statement except for the shortcut nodes pinned by the golden test (C08-F5). -/
+theorem roundtrip_expr_noShortcut (e : Expr) (h : NoShortcut e = true) :
+    parseE (printE e) = some e :=
+  roundtrip_expr_partial e (rt_of_noShortcut e h)
 
--- non-vacuity: the side conditions are satisfiable by nested expressions of every level …
-example : RT (.binary .or (.binary .and a (.unary .not b))
-    (.binary .lt (.binary .plus a (.binary .mul b c)) (.binary .minus (.binary .minus a b) c))) = true := by
+-- non-vacuity: the side conditions are satisfiable by nested expressions of every level and class …
+example : NoShortcut (.binary .or (.binary .and a (.unary .not (.unary .not (.post (.post b 0) 1))))
+    (.binary .lt (.binary .plus a (.binary .mul (.post (.lambda 0 (.binary .plus b (.ifElse 1))) 2)
+        (.binary .concat c (.matchE 0))))
+      (.binary .minus (.binary .minus a b) (.binary .plus b (.unary .neg (.post (.unary .neg c) 3)))))) = true := by
   decide
-example : Clean (.binary .minus a (.binary .minus b (.unary .neg (.binary .plus a c)))) = true := by decide
--- … `RT` also admits `::` where printer and parser happen to agree (`a + (b :: c)`, `(a :: b) :: c`) …
-example : RT (.binary .plus a (.binary .concat (.binary .concat b c) a)) = true := by decide
--- … and they exclude exactly the witnesses above
-example : RT (.binary .mul a (.binary .div b c)) = false := by decide
-example : RT (.unary .neg (.unary .neg a)) = false := by decide
-example : RT (.binary .concat (.binary .plus a b) c) = false := by decide
--- the concrete parser agrees with the theorem on a sample
+example : NoShortcut (.binary .mul a (.binary .div b c)) = true := by decide
+-- … and exclude exactly the remaining witness
+example : NoShortcut (.binary .plus a (.binary .plus b c)) = false ∧
+    RT (.binary .plus a (.binary .plus b c)) = false := by decide
+-- the concrete parser agrees with the theorems on samples
 example : parseE (printE (.binary .minus a (.binary .minus b (.unary .neg (.binary .plus a c))))) =
     some (.binary .minus a (.binary .minus b (.unary .neg (.binary .plus a c)))) := by decide
+example : printE (.post (.lambda 0 (.binary .plus b (.ifElse 1))) 2) =
+    [.lp, .lam 0, .atom 1, .op .plus, .lp, .kwIf 1, .rp, .rp, .post 2] := by decide
+example : parseE [.lp, .atom 0, .op .plus, .atom 1, .rp] = some (.binary .plus a b) := by decide
 
 /-! ## String literals -/
 
-/-- `"q\"uote"` (P4 / C08-F2): the parser stores `q"uote`, the printer emits `"q"uote"`, which
-lexes as the string `q` followed by garbage. Full-strength statement
-`∀ inp c rest, parseStr inp = some (c, rest) → parseStr (printStr c ++ rest) = some (c, rest)` is false. -/
-theorem roundtrip_str_counterexample :
-    ¬ ∀ inp c rest, parseStr inp = some (c, rest) → parseStr (printStr c ++ rest) = some (c, rest) := by
-  intro h
-  have := h ['"', 'q', '\\', '"', 'u', '"'] ['q', '"', 'u'] [] (by decide)
-  revert this
-  decide
-
-/-- **String round trip under the side condition "no `\"` in the literal"**: whatever the lexer
-accepted as a string token (any content, any other escapes, any following input), the printed
-literal lexes to the same token with the same remaining input, and the parser stores the same
-string. -/
-theorem roundtrip_str_partial (inp c rest : List Char) (h : lexStr inp = some (c, rest))
-    (hq : hasEscapedQuote c = false) :
-    parseStr inp = some (c, rest) ∧ parseStr (printStr c ++ rest) = some (c, rest) := by
-  have hu := unescape_id c hq
-  refine ⟨by simp [parseStr, h, hu], ?_⟩
+/-- **String round trip, full strength** (true since fix b0a5193; before it `"q\"uote"` was printed
+`"q"uote"`, finding C08-F2): whatever the lexer accepts as a string token — any content, any
+escapes, any following input — the parser's stored string is printed as a literal that lexes to the
+same token with the same remaining input, and the parser stores the same string again. -/
+theorem roundtrip_str (inp c rest : List Char) (h : lexStr inp = some (c, rest)) :
+    parseStr inp = some (unescapeQuotes c, rest) ∧
+    printStr (unescapeQuotes c) = '"' :: (c ++ ['"']) ∧
+    parseStr (printStr (unescapeQuotes c) ++ rest) = some (unescapeQuotes c, rest) := by
+  refine ⟨by simp [parseStr, h], ?_⟩
   cases inp with
   | nil => simp [lexStr] at h
   | cons q inp =>
@@ -226,16 +271,21 @@ theorem roundtrip_str_partial (inp c rest : List Char) (h : lexStr inp = some (c
       obtain ⟨s, hc, _, hcl, hb⟩ := lexStrGo_some inp [] c rest h
       simp only [List.reverse_nil, List.nil_append] at hc
       subst hc
+      have hqe : quotesEscaped false c = true := by
+        simpa [countBackslashes] using closed_quotesEscaped c [] hcl
+      have hesc := escape_unescape c hqe
       have := lexStrGo_closed c [] rest hcl hb
       simp only [List.reverse_nil, List.nil_append] at this
-      simp [parseStr, printStr, lexStr, this, hu]
+      refine ⟨by simp [printStr, hesc], ?_⟩
+      simp [parseStr, printStr, lexStr, hesc, this]
     · unfold lexStr at h
       split at h
       · rename_i heq; cases heq; exact absurd rfl hq'
       · cases h
 
-example : lexStr ['"', 'a', '\\', 'n', '\\', '\\', '"', 'x'] = some (['a', '\\', 'n', '\\', '\\'], ['x']) ∧
-    hasEscapedQuote ['a', '\\', 'n', '\\', '\\'] = false := by decide
+-- non-vacuity, incl. the former counterexample "q\"u" followed by more input
+example : lexStr ['"', 'q', '\\', '"', 'u', '"', '/', '/'] = some (['q', '\\', '"', 'u'], ['/', '/']) ∧
+    parseStr (printStr ['q', '"', 'u'] ++ ['/', '/']) = some (['q', '"', 'u'], ['/', '/']) := by decide
 
 /-! ## Int literals and `-` -/
 
